@@ -87,6 +87,15 @@ def main(v: Verdict) -> None:
             kw = {"opts": Opts(nc=True), "out": work / "deep" / "missing" / "dir"}
         jobs.append({"src": d, "timeout": 600, **kw})
         meta.append((d.name, ["abs", "abs+nc", "relative", "nested-missing+nc"][variant]))
+    # the directory given with -s is not the package but its parent / grandparent: the inventory is still named after that directory
+    for k, (d, chunk) in enumerate(packs[:2]):
+        jobs.append({"src": d.parent, "timeout": 600, "opts": Opts(nc=bool(k))})
+        meta.append((d.parent.name, f"source-is-parent-of-package nc={bool(k)}"))
+    import shutil
+    gp = fresh_dir("c10gp")
+    shutil.copytree(packs[0][0], gp / "wrap" / "inner" / packs[0][0].name)
+    jobs.append({"src": gp, "timeout": 600, "opts": Opts()})
+    meta.append((gp.name, "source-is-ancestor-of-package"))
     from pygen import FOREIGN_LIB, FOREIGN_LIB_USE
     fpk = write_pkg({"__init__.py": "", "formod.py": FOREIGN_SRC, "flibuse.py": FOREIGN_LIB_USE}, "forgnpk", siblings=FOREIGN_LIB)
     for nc in (False, True):
